@@ -555,7 +555,7 @@ func (e *ex) hres(t []string) core.Result {
 	e.remember(ctx.ID(), en)
 	c := r.Content
 	impl := fmt.Sprintf("ok %d %s %d %s %s %d %s %s", r.Status, core.HexS(r.HTTPVersion), r.BodySize, hdrTok(r.Headers),
-		core.HexS(r.RedirectURL), c.Size, core.HexS(c.MimeType), core.Hex(c.Text))
+		core.HexS(r.RedirectURL), c.Size, core.HexS(c.MimeType), c15.BytesTok(c.Text))
 	ret := func(sig, f string, x ...interface{}) core.Result {
 		res := fail(sig, f, x...)
 		res.Impl = impl
@@ -599,7 +599,15 @@ func (e *ex) hres(t []string) core.Result {
 		return core.Result{Impl: impl}
 	}
 	want := a.Body
-	if infl != "na" && infl != "err" {
+	if strings.HasPrefix(infl, "h:") {
+		// a decoded body too big to travel in the op: the reference decoder is run here and must give
+		// what the op announces
+		want, _ = msggen.Inflate(a.Get("Content-Encoding"), a.Body)
+		if c15.BytesTok(want) != infl {
+			return core.Result{Impl: "gen-mismatch decoded body is " + c15.BytesTok(want)}
+		}
+		core.Count("hres:decoded-big")
+	} else if infl != "na" && infl != "err" {
 		want, _ = core.Unhex(infl)
 		core.Count("hres:decoded")
 	} else {
@@ -609,6 +617,9 @@ func (e *ex) hres(t []string) core.Result {
 		return ret("c16:content-undecodable-logged", "undecodable body was logged as %d bytes", len(c.Text))
 	}
 	if !bytes.Equal(c.Text, want) {
+		if len(c.Text) < len(want) && bytes.Equal(c.Text, want[:len(c.Text)]) {
+			return ret("c16:content-truncated", "content.text is the first %d bytes of the decoded body of %d bytes (content.size %d)", len(c.Text), len(want), c.Size)
+		}
 		return ret("c16:content-not-decoded-body", "content.text is %d bytes %q…, decoded body is %d bytes %q…", len(c.Text), clip(string(c.Text)), len(want), clip(string(want)))
 	}
 	if c.Size != int64(len(want)) {
